@@ -12,6 +12,14 @@ Theorem C11_globals_only_restrict : forall w ps i ref commit signer,
 Proof. exact globals_only_restrict. Qed.
 Print Assumptions C11_globals_only_restrict.
 
+(** The same for global rules inherited from controller repositories (the policy tree's
+    gittuf-controller/<name>/ copies, which State.preprocess adds to the repository's own): they
+    are checked together with the repository's own rules and never make verification accept more. *)
+Theorem C11_inherited_globals_only_restrict : forall w ps ctl i ref commit signer,
+  verify_entry w (with_controllers ps ctl) i ref commit signer = true -> verify_entry w ps i ref commit signer = true.
+Proof. exact inherited_globals_only_restrict. Qed.
+Print Assumptions C11_inherited_globals_only_restrict.
+
 (** The constraints themselves, by computation on the model and replayed against the
     implementation: a matching threshold rule needs that many distinct authenticated principals even
     where no delegation rule protects the namespace; a block-force-push rule needs descent from the
@@ -32,6 +40,16 @@ Example C11_block_force_push :
   let w := {| w_log := [WEPolicy (pol_g [GBlockForce [x67] [[x2a]]]); WERef mainref 3%N 4%N; WERef mainref 2%N 4%N]; w_commits := commits4 |} in
   verify_full w mainref = VFail VEViolation.        (* 2 is not a descendant of 3 *)
 Proof. vm_compute. reflexivity. Qed.
+
+(** a controller's threshold rule applies although the repository declares a rule of its own that
+    does not match the branch (both sets are in force) *)
+Example C11_controller_rule_applies_beside_own_rules :
+  let tags := [x67;x69;x74;x3a;x72;x65;x66;x73;x2f;x74;x61;x67;x73;x2f;x2a] in      (* git:refs/tags/* *)
+  let ps := with_controllers (pol_g [GBlockForce [x67] [tags]]) [([x63], [GThreshold [x68] [[x2a]] 1])] in
+  let w := {| w_log := [WEPolicy ps; WERef other 2%N 0%N]; w_commits := commits4 |} in
+  verify_full w other = VFail VEViolation /\
+  verify_full {| w_log := [WEPolicy (pol_g [GBlockForce [x67] [tags]]); WERef other 2%N 0%N]; w_commits := commits4 |} other = VTip 2%N.
+Proof. vm_compute. split; reflexivity. Qed.
 
 (** C11_refuted at the level of whole histories (finding K14).  The entry-level theorem above does
     not lift: with a global rule declared (here one that does not even match the branch) an
